@@ -347,6 +347,155 @@ def rule_narrow_saturate(ctx):
         ctx.ok(rid, "no-i16-saturation", "%d explicit-overflow operations on i16, none saturating" % n, nontrivial=True)
 
 
+def rule_unpack_value(ctx):
+    """UnpackSigned, in each of its four copies, equals the format's definition (evaluated from MIR)"""
+    from .. import absint
+    rid = "R-UNPACK-VALUE"
+    ctx.rule(rid, "UnpackSigned(u) = u / 2 for even u, -(u + 1) / 2 for odd u (ISO/IEC 18181-1).  The four copies - "
+                  "jxl_bitstream::unpack_signed, unpack_signed_u64, and the Modular sample decoders <i32 as Sealed>::unpack_signed_u32 and "
+                  "<i16 as Sealed>::unpack_signed_u32 (result modulo 2^16, as the narrow buffers require) - are evaluated from MIR for 17 "
+                  "tokens around 0, 2^8, 2^16, 2^17 and the top of the range and compared with the definition")
+    P = ctx.prog
+    cands = [("jxl_bitstream::unpack_signed", 32, 32), ("jxl_bitstream::unpack_signed_u64", 64, 64)]
+    fns = []
+    for path, inb, outb in cands:
+        f = P.fn(path)
+        if f is None:
+            ctx.anchor_missing(rid, path)
+            continue
+        fns.append((f, inb, outb, path))
+    md = P.crate("jxl_modular")
+    for g in md.fn_list:
+        if g.path.endswith("::unpack_signed_u32") and " as jxl_modular::sample::Sealed>" in g.path and g.kind != "Promoted":
+            w = 16 if g.path.startswith("<i16 ") else (32 if g.path.startswith("<i32 ") else None)
+            if w:
+                fns.append((g, 32, w, g.path))
+    if len(fns) < 4:
+        ctx.anchor_missing(rid, "the four UnpackSigned implementations (found %d)" % len(fns))
+        return
+    rows = 0
+    for f, inb, outb, path in fns:
+        ctx.seen(f)
+        top = (1 << inb) - 1
+        toks = [0, 1, 2, 3, 4, 5, 254, 255, 256, 65534, 65535, 65536, 65537, 131070, 131071, top - 1, top]
+        bad, undec = None, None
+        for u in toks:
+            want = u // 2 if u % 2 == 0 else -((u + 1) // 2)
+            want &= (1 << outb) - 1
+            if want >= 1 << (outb - 1):
+                want -= 1 << outb
+            ev = absint.Evaluator(P)
+            try:
+                got = ev.call_fn(f, [u])
+            except absint.Unsupported as e:
+                undec = str(e)
+                break
+            rows += 1
+            if got != want and bad is None:
+                bad = (u, got, want)
+        key = absint_key(path)
+        if undec:
+            ctx.bad(rid, key + "|not-evaluable", "%s is no longer a function the evaluator can decide (%s)" % (path, undec), fn=f)
+        elif bad:
+            ctx.bad(rid, key + "|value", "token %d unpacks to %s, the definition gives %d (result width %d bits)" % (bad[0], bad[1], bad[2], outb), fn=f)
+        else:
+            ctx.ok(rid, key, "17 tokens equal the definition (result width %d bits)" % outb, nontrivial=True, fn=f)
+    ctx.count(rid + ".rows", rows)
+    ctx.floor(rid + ".rows", 4 * 17)
+
+
+def absint_key(path):
+    import re
+    return re.sub(r"\s+", " ", path)
+
+
+def rule_width_branch(ctx):
+    """the narrow and the wide branch of every `if self.narrow_modular()` read the same state"""
+    from ..facts import op_local, op_place
+    rid = "R-WIDTH-BRANCH"
+    ctx.rule(rid, "RenderContext keeps two parallel sets of render handles (renders_narrow / renders_wide) and duplicates a stretch of code "
+                  "for each under `if self.narrow_modular()`.  For every such branch the set of struct fields read or written in the "
+                  "two arms (closures created there included; narrow / wide in field names normalised) is the same - an arm that takes "
+                  "its reference frames, regions or dependencies from another field than its twin renders 16-bit images differently from "
+                  "32-bit ones")
+    cr = ctx.prog.crate("jxl_render")
+
+    def fields_of(f, blocks, depth=0):
+        out = set()
+
+        def plf(pl):
+            for e in pl[1:]:
+                if isinstance(e, list) and e[0] == "." and e[2]:
+                    out.add(str(e[2]))
+        for b in blocks:
+            for st in f.stmts(b):
+                if st[0] != "=":
+                    continue
+                plf(st[1])
+                rv = st[2]
+                ops = [rv[1]] if rv[0] == "use" else ([rv[2]] if rv[0] in ("cast", "un") else ([rv[2], rv[3]] if rv[0] == "bin" else (list(rv[2]) if rv[0] == "agg" else [])))
+                for o in ops:
+                    p = op_place(o)
+                    if p:
+                        plf(p)
+                if rv[0] == "ref":
+                    plf(rv[2])
+                if rv[0] == "discr":
+                    plf(rv[1])
+                if rv[0] == "agg" and rv[1][0] == "closure" and depth < 3:
+                    g = cr.fns.get(rv[1][1])
+                    if g is not None:
+                        out |= fields_of(g, [x for x in range(len(g.blocks)) if not g.is_cleanup(x)], depth + 1)
+            t = f.term(b)
+            if t[0] == "call":
+                for a in t[2]:
+                    p = op_place(a)
+                    if p:
+                        plf(p)
+                plf(t[3])
+            elif t[0] == "switch":
+                p = op_place(t[1])
+                if p:
+                    plf(p)
+        return out
+
+    def norm(s):
+        return {x.replace("narrow", "*").replace("wide", "*") for x in s}
+
+    sites = 0
+    for f in cr.fn_list:
+        if f.kind == "Promoted" or not f.path.startswith("jxl_render::RenderContext"):
+            continue
+        k = 0
+        for b, t in f.calls():
+            c = callee(t)
+            if not c or not c["fn"].endswith("RenderContext::narrow_modular") or not t[3] or len(t[3]) != 1:
+                continue
+            for sb in range(len(f.blocks)):
+                st = f.term(sb)
+                if st[0] != "switch" or op_local(st[1]) != t[3][0]:
+                    continue
+                tg = [x for _, x in st[2]] + [st[3]]
+                if len(tg) != 2 or tg[0] == tg[1]:
+                    continue
+                regs = []
+                for x in tg:
+                    other = [y for y in tg if y != x][0]
+                    regs.append([bb for bb in range(len(f.blocks)) if not f.is_cleanup(bb) and f.dominates(x, bb) and not f.dominates(other, bb)])
+                sites += 1
+                k += 1
+                ctx.seen(f)
+                fa, fb = norm(fields_of(f, regs[0])), norm(fields_of(f, regs[1]))
+                key = "%s#%d" % (f.path, k)
+                if fa == fb:
+                    ctx.ok(rid, key, "both arms touch the same %d fields" % len(fa), nontrivial=True, fn=f)
+                else:
+                    ctx.bad(rid, key + "|fields-differ", "the two arms of `if self.narrow_modular()` do not use the same state: only one of them touches %s"
+                            % ", ".join("`%s`" % x for x in sorted(fa ^ fb)), fn=f, pos=f.term_pos(sb))
+    ctx.count(rid + ".branches", sites)
+    ctx.floor(rid + ".branches", 6)
+
+
 def main(pid, tier, repo=None):
     ctx = Ctx(pid, tier, configs=("workspace",), repo=repo)
     rule_narrowpred(ctx)
@@ -354,6 +503,8 @@ def main(pid, tier, repo=None):
     rule_sample_sibling(ctx)
     rule_width_sibling(ctx)
     rule_unpack_width(ctx)
+    rule_unpack_value(ctx)
+    rule_width_branch(ctx)
     rule_narrow_saturate(ctx)
     ctx.not_decided("sample-for-sample equality of the two decodes; the arithmetic of the i16 SIMD squeeze kernels against the scalar code "
                     "(head/tail handling per width class); that 16-bit intermediates never overflow for depths up to 12 bits")
